@@ -68,13 +68,13 @@ P = dict(
         # valid use includes element types whose constructors/assignments throw: the exception-injection scenarios of C03, for their lifetime/sanitizer records
         reuse("C02_throw", "harness/C03_throw.cpp", [], shards=4),
         # zero-size / zero-capacity instances of every container, string, view, span, array, bitset and set: every callable member, vs the std counterpart
-        Unit("C02_zero", "harness/C02_zero.cpp", flavours={"quick": ["asan-cc", "asan-nocc"], "thorough": ["asan-cc", "asan-nocc", "vg-cc", "clang14-cc"]},
+        Unit("C02_zero", "harness/C02_zero.cpp", flavours={"quick": ["asan-cc", "asan-nocc"], "thorough": ["asan-cc", "asan-nocc", "vg-cc"]},
              shards={"quick": 1, "thorough": 1}),
         # element-converting range algorithms between pointer ranges of different element types (a bytewise fast path must require identical types)
-        Unit("C02_conv", "harness/C02_conv.cpp", flavours={"quick": ["asan-cc", "plain-cc"], "thorough": ["asan-cc", "plain-cc", "asan-nocc", "clang14-cc"]},
+        Unit("C02_conv", "harness/C02_conv.cpp", flavours={"quick": ["asan-cc", "plain-cc"], "thorough": ["asan-cc", "plain-cc", "asan-nocc"]},
              shards={"quick": 2, "thorough": 2}),
         # over-aligned element types: alignof(owner) >= alignof(T), every reachable element address aligned, UBSan alignment check on the library's accesses
-        Unit("C02_align", "harness/C02_align.cpp", defs=["-Wno-invalid-offsetof"], flavours={"quick": ["asan-cc"], "thorough": ["asan-cc", "asanO0-nocc", "clang14-cc"]},
+        Unit("C02_align", "harness/C02_align.cpp", defs=["-Wno-invalid-offsetof"], flavours={"quick": ["asan-cc"], "thorough": ["asan-cc", "asanO0-nocc"]},
              shards={"quick": 1, "thorough": 1}),
     ] + clone("C06", 4) + clone("C09", 4, 2, pick=lambda u: u.name.endswith(("_p0", "_tracked", "fmset")))
     + clone("C10", 8, 2) + clone("C14", 4, 2, pick=lambda u: u.name.endswith(("_0", "_2"))) + clone("C17", 4, 2, pick=lambda u: u.name.endswith(("_g0", "_g2")))
